@@ -85,7 +85,7 @@ pub fn numeric(cfg: &CssCfg) -> BoxedStrategy<VTok> {
 }
 
 pub fn string_value() -> BoxedStrategy<String> {
-    prop_oneof![Just("".to_string()), Just("a".to_string()), Just("a b".to_string()), Just("it's".to_string()), Just("q\"q".to_string()), Just("*/".to_string()), Just("\\".to_string()), Just("中 😀".to_string()), Just("a\nb".to_string()), Just("1rpx .a".to_string()), Just("{".to_string()), Just("}".to_string()), Just("{{x}}".to_string()), Just("a{b;".to_string()), Just("t\tb".to_string()), Just("e\u{301}\u{200d}".to_string()), Just("\u{7f}(".to_string())].boxed()
+    prop_oneof![Just("".to_string()), Just("a".to_string()), Just("a b".to_string()), Just("it's".to_string()), Just("q\"q".to_string()), Just("*/".to_string()), Just("\\".to_string()), Just("中 😀".to_string()), Just("a\nb".to_string()), Just("1rpx .a".to_string()), Just("{".to_string()), Just("}".to_string()), Just("{{x}}".to_string()), Just("a{b;".to_string()), Just("t\tb".to_string()), Just("e\u{301}\u{200d}".to_string()), Just("\u{7f}(".to_string()), Just("C:\\s\\\"m\".css".to_string()), Just("a\"b\\c".to_string()), Just("\\\"".to_string()), Just("'\\'\"".to_string())].boxed()
 }
 
 pub fn calc_expr(cfg: &CssCfg, depth: u32) -> BoxedStrategy<CalcExpr> {
@@ -120,6 +120,10 @@ pub fn value_tok(cfg: &CssCfg, depth: u32) -> BoxedStrategy<VTok> {
     if cfg.dotted {
         alts.push((1, (pick(PLAIN_CLASS_NAMES), pick(PLAIN_CLASS_NAMES)).prop_map(|(a, b)| VTok::DottedIdent(a, b)).boxed()));
     }
+    if cfg.unicode_range && depth >= 2 {
+        // a unicode-range next to other value tokens (`src: x U+26 u+1F600-1F64F`): top level of a declaration value only
+        alts.push((1, prop_oneof![Just("U+26"), Just("u+1F600-1F64F"), Just("U+4??"), Just("U+0-7F"), Just("U+10FFFF")].prop_map(|s: &str| VTok::UnicodeRange(s.to_string())).boxed()));
+    }
     if depth > 0 {
         let sub = proptest::collection::vec(value_tok(cfg, depth - 1), 1..4);
         alts.push((2, (pick(FUNCS), sub.clone()).prop_map(|(n, a)| VTok::Func(n, sep_commas(a))).boxed()));
@@ -142,7 +146,7 @@ fn sep_commas(v: Vec<VTok>) -> Vec<VTok> {
 }
 
 pub fn decl(cfg: &CssCfg) -> BoxedStrategy<Decl> {
-    let ur = prop_oneof![Just("U+0025-00FF"), Just("U+4??"), Just("u+1e3"), Just("U+26"), Just("U+0-7F"), Just("U+1F600-1F64F"), Just("U+e??")].prop_map(|s: &str| VTok::UnicodeRange(s.to_string()));
+    let ur = prop_oneof![Just("U+0025-00FF"), Just("U+4??"), Just("u+1e3"), Just("U+26"), Just("U+0-7F"), Just("U+1F600-1F64F"), Just("U+e??"), Just("U+10FFFF"), Just("U+100000-10FFFF"), Just("U+00004?"), Just("u+10e5??"), Just("U+10E000"), Just("U+0-10FFFF")].prop_map(|s: &str| VTok::UnicodeRange(s.to_string()));
     let normal = (pick(PROPS), proptest::collection::vec(value_tok(cfg, 2), 1..4), proptest::bool::weighted(0.1)).prop_map(|(prop, mut value, imp)| {
         if imp {
             value.push(VTok::Important);
@@ -304,7 +308,7 @@ pub fn node(cfg: &CssCfg, depth: u32) -> BoxedStrategy<Node> {
 }
 
 pub fn import(cfg: &CssCfg) -> BoxedStrategy<Node> {
-    let path = prop_oneof![Just("./a"), Just("a/b.wxss"), Just("it's"), Just("q\"q"), Just("*/x"), Just("a b"), Just("100%"), Just("中/😀"), Just("a\\b*?"), Just("/* c */"), Just("x\ny")].prop_map(|s: &str| s.to_string());
+    let path = prop_oneof![Just("./a"), Just("a/b.wxss"), Just("it's"), Just("q\"q"), Just("*/x"), Just("a b"), Just("100%"), Just("中/😀"), Just("a\\b*?"), Just("/* c */"), Just("x\ny"), Just("C:\\s\\\"m\".css"), Just("a\"b\\c"), Just("\\\"")].prop_map(|s: &str| s.to_string());
     let form = prop_oneof![
         4 => path.clone().prop_map(ImportForm::Str),
         2 => path.clone().prop_map(ImportForm::UrlFn),
